@@ -39,7 +39,7 @@ LEVEL_NOTE = ("Trusted: Lean kernel + propext/Quot.sound/Classical.choice; tools
 LEAN_MODULES = ["Clikit.Props.C11"]
 REQUIRED_THEOREMS = ["Clikit.Props.C11." + n for n in (
     "sgr_exact", "strip_eq_plain", "balanced_text", "plain_no_escape", "line_methods_newline",
-    "indent_lines", "scope_restores")]
+    "indent_lines", "scope_restores", "message_strip_eq_plain", "message_balanced", "io_delegates")]
 RULE = ("msg: random ASTs (depth <= 4) over named styles of the default style set (any case), inline "
         "fg/bg/options specs, unknown tags, text over ASCII, '<' '>' '/', newline, non-ASCII incl. the four "
         "non-ASCII letters Python's case-insensitive [a-z] admits; non-trivial = at least one style node, distinct "
@@ -247,18 +247,18 @@ def gen_style(rng):
     return tag, close, spec
 
 
-def gen_nodes(rng, depth, width):
+def gen_nodes(rng, depth, width, top=True):
     nodes = []
-    for _ in range(rng.randint(0, width)):
+    for _ in range(rng.randint(1 if top else 0, width)):
         r = rng.random()
-        if r < 0.45 or depth <= 0:
+        if r < (0.3 if top else 0.42) or depth <= 0:
             nodes.append(["t", gen_text(rng, rng.choice([1, 2, 3, 5, 8]))])
-        elif r < 0.55:
+        elif r < (0.4 if top else 0.52):
             t = rng.choice(UNKNOWN_TAGS)
             nodes.append(["u", ("</%s>" if rng.random() < 0.3 else "<%s>") % t])
         else:
             o, c, spec = gen_style(rng)
-            nodes.append(["s", o, c, gen_nodes(rng, depth - 1, max(1, width - 1)), spec])
+            nodes.append(["s", o, c, gen_nodes(rng, depth - 1, max(1, width - 1), False), spec])
     return normalise(nodes)
 
 
@@ -398,7 +398,7 @@ def generate(tier, rng):
                         idx += 1
                         yield {"k": "write", "obj": obj, "method": meth, "fmt": fmt, "indent": indent, "ast": ast_,
                                "quiet": q, "verbosity": v, "flags": f}
-    for _ in range(6000 if thorough else 300):
+    for _ in range(30000 if thorough else 1000):
         obj = rng.choice(sorted(OBJ_METHODS))
         q, v, f = rng.choice(GATES)
         yield {"k": "write", "obj": obj, "method": rng.choice(OBJ_METHODS[obj]), "fmt": rng.choice(FMTS),
@@ -410,14 +410,14 @@ def generate(tier, rng):
         for levels in itertools.product(per_level, repeat=d):
             k += 1
             yield {"k": "scopes", "prog": chain_prog(list(levels), k % (d + 2)), "out": 0, "err": 0}
-    for _ in range(6000 if thorough else 400):
+    for _ in range(30000 if thorough else 1000):
         yield {"k": "scopes", "prog": gen_prog(rng, 4 if thorough else 3, 3),
                "out": rng.choice([0, 0, 2]), "err": rng.choice([0, 0, 1])}
     # ---- malformed stream
-    for _ in range(4000 if thorough else 400):
+    for _ in range(20000 if thorough else 1000):
         yield {"k": "bad", "msg": gen_bad(rng)}
     # ---- messages
-    for _ in range(60000 if thorough else 4000):
+    for _ in range(400000 if thorough else 12000):
         pre = [rng.choice(NAMED) for _ in range(rng.choice([0, 0, 0, 0, 1, 2]))]
         style = rng.choice(STYLE_POOL) if rng.random() < 0.25 else None
         yield {"k": "msg", "ast": gen_nodes(rng, 4, 4), "pre": pre, "style": style}
